@@ -2,7 +2,9 @@ use super::points::{mean_point, mean_point_weighted};
 use crate::geom3::{Iso3, SvdBasis3, UnitVec3};
 use crate::{Iso2, SvdBasis2};
 use parry2d_f64::na::{Matrix2, Rotation2, Translation2, UnitComplex};
-use parry3d_f64::na::{DMatrix, Matrix3, Point, SVector, Translation3, Unit, UnitQuaternion};
+use parry3d_f64::na::{
+    DMatrix, Matrix3, Point, Rotation3, SVector, Translation3, Unit, UnitQuaternion,
+};
 use std::f64::consts::FRAC_PI_2;
 
 /// This structure contains the results of using singular value decomposition to determine the
@@ -222,10 +224,12 @@ fn svd_from_vectors<const D: usize>(
 
 pub fn iso3_from_basis(basis: &[SVector<f64, 3>; 3], origin: &Point<f64, 3>) -> Iso3 {
     let b0 = basis[0].normalize();
-    let b1 = basis[1].normalize();
-    let b2 = b0.cross(&b1).normalize();
-    let rot_m = Matrix3::from_columns(&[b0, b1, b2]);
-    let r = UnitQuaternion::from_matrix(&rot_m);
+    let b2 = b0.cross(&basis[1]).normalize();
+    let b1 = b2.cross(&b0);
+    // Orthonormal, right-handed columns are converted directly: the iterative `from_matrix` started at the
+    // identity stays there when the target is a half turn (any symmetric rotation matrix).
+    let rot_m = Rotation3::from_matrix_unchecked(Matrix3::from_columns(&[b0, b1, b2]));
+    let r = UnitQuaternion::from_rotation_matrix(&rot_m);
     let t = Translation3::from(origin.coords);
     Iso3::from_parts(t, r).inverse()
 }
@@ -255,8 +259,9 @@ pub fn iso3_from_xyo(x0: &UnitVec3, y: &UnitVec3, origin: &Point<f64, 3>) -> Iso
 
     let z0 = x0.cross(&y0).normalize();
 
-    let rot_m = Matrix3::from_columns(&[x0.into_inner(), y0.into_inner(), z0]);
-    let r = UnitQuaternion::from_matrix(&rot_m);
+    let rot_m =
+        Rotation3::from_matrix_unchecked(Matrix3::from_columns(&[x0.into_inner(), y0.into_inner(), z0]));
+    let r = UnitQuaternion::from_rotation_matrix(&rot_m);
     let t = Translation3::from(origin.coords);
     Iso3::from_parts(t, r).inverse()
 }
@@ -264,8 +269,8 @@ pub fn iso3_from_xyo(x0: &UnitVec3, y: &UnitVec3, origin: &Point<f64, 3>) -> Iso
 pub fn iso2_from_basis(basis: &[SVector<f64, 2>; 2], origin: &Point<f64, 2>) -> Iso2 {
     let b0 = basis[0].normalize();
     let b1 = Rotation2::new(FRAC_PI_2) * b0;
-    let rot_m = Matrix2::from_columns(&[b0, b1]);
-    let r = UnitComplex::from_matrix(&rot_m);
+    let rot_m = Rotation2::from_matrix_unchecked(Matrix2::from_columns(&[b0, b1]));
+    let r = UnitComplex::from_rotation_matrix(&rot_m);
     let t = Translation2::from(origin.coords);
     Iso2::from_parts(t, r).inverse()
 }
